@@ -13,9 +13,12 @@ instance : Num Float where
   pi := 3.141592653589793
   mu0 := Float.ofBits Gen.Const.mu0Bits
   lt a b := a < b
+  le a b := a <= b
   eq0 a := a == 0.0
   log := Float.log
   atan2 := Float.atan2
+  sin := Float.sin
+  cos := Float.cos
 
 def flt : P Float := do
   let k ← nat
@@ -39,6 +42,20 @@ def run : P String := do
   | "sphere" => do let f ← field; let d ← flt; let p ← v3; let x ← v3; pure (out (bhjmSphere f d p x))
   | "segment" => do let c ← flt; let p1 ← v3; let p2 ← v3; let po ← v3; pure (out (segmentH c p1 p2 po))
   | "cuboid" => do let f ← field; let d ← v3; let p ← v3; let x ← v3; pure (out (bhjmCuboid f d p x))
+  | "triangle" => do
+      let f ← field; let a ← v3; let b ← v3; let c ← v3; let p ← v3; let x ← v3
+      pure (out (bhjmTriangle f a b c p x))
+  | "tetra" => do
+      let f ← field; let a ← v3; let b ← v3; let c ← v3; let d ← v3; let p ← v3; let x ← v3
+      pure (out (bhjmTetra f a b c d p x))
+  | "tetrainside" => do
+      let a ← v3; let b ← v3; let c ← v3; let d ← v3; let x ← v3
+      pure s!"{tetraInside a b c d x}"
+  | "circle" => do
+      let f ← field; let d ← flt; let c ← flt; let x ← v3
+      match bhjmCircle 200 f d c x with
+      | some v => pure (out v)
+      | none => pure "no-convergence"
   | "cuboidmask" => do
       let d ← v3; let p ← v3; let x ← v3
       let m := cuboidMasks d p x
